@@ -4,21 +4,30 @@
    database, every statement that returns an error leaves `abs` (SELECT * of every table of the
    catalog, computed through the model's own catalog trees, codec and chain scans) as it was.
 
-   STATUS: REFUTED for the code as it is (C14_refuted; recorded findings F11a-c, each with its
-   own vm_compute witness below): the engine applies the rows of a multi-row statement one by
-   one and CREATE TABLE registers the table and its columns one by one; nothing is undone when
-   a later step fails.
+   STATUS: PROVED for every reachable state and every statement (C14_atomic, at the end of this
+   file), since the repair of findings F11a-c: EvaluateInsert calls CheckInsert for every row of
+   the VALUES list, EvaluateUpdate calls CheckUpdate for every matching row, and createTable
+   calls checkCatalogRows, BEFORE the first change (model: Engine.run_stmt / first_err,
+   Store.check_insert / check_update / check_catalog_rows). The failing statement returns the very
+   store it was given - no page, no catalog root, no allocator field and not even the row-id / LSN
+   counters change - so `same_pages` and `abs` equality follow. The hypothesis "(H1) the error
+   arises before the first page change" of C14_atomic_early is DERIVED (Proofs/FailsEarly.v
+   stmt_err_unchanged: under the refinement invariant `Rep`, which holds in every reachable
+   state, nothing can fail after the checks have passed). Side conditions of C14_atomic, the ones
+   C01full uses: literals of the history and of the statement are Go values (ev_ok / stmt_ok:
+   integers within int64, strings below 2^32 bytes), the data file stays below 2^63 bytes.
+   C14_full_statement itself has no such side conditions and is therefore left as a definition.
+   The former refutation (C14_refuted) and its three witnesses are replaced by examples showing
+   that the old behaviour is gone (the C14_former_witness examples).
 
-   What IS proved for all states and statements:
+   Also proved, for all states and statements, without any invariant:
    * C14_atomic_early: if the error arises before the statement's first page change
      (`fails_early`: unknown / duplicate table, column count, type mismatch, INT range, oversized
      FIRST row, SET from a column, unevaluable WHERE, any failure at the FIRST matching row of
      UPDATE / DELETE, every statement kind the engine does not execute), then no page, no catalog
-     root and no allocator field changes - only the row-id and LSN counters may have been
-     consumed - and `abs` is unchanged;
+     root and no allocator field changes and `abs` is unchanged;
    * C14_failed_not_logged / C14_failed_gone_after_crash: a failing statement never appends to the
-     log and never flushes, so whatever partial effects it had are gone after a crash that is not
-     preceded by a flush (they become durable only through a later flush). *)
+     log and never flushes. *)
 From Coq Require Import List NArith ZArith String.
 From Mkdb Require Import Spec.HistObs.
 From Mkdb Require Import Proofs.Atomic.
@@ -68,81 +77,63 @@ Fixpoint rep_string (n : nat) : string :=
 Definition sys_after (evs : list event) : sys :=
   match fst (run_events init_sys evs) with SOk y => y | _ => init_sys end.
 
-(* a recorded witness: a statement history, then a statement that fails with `e` and changes abs *)
-Definition C14_witness (evs : list event) (st : stmt) (e : err) : Prop :=
+Ltac vsplit := repeat match goal with |- _ /\ _ => split end; vm_compute; reflexivity.
+
+(* The three recorded witnesses of the former refutation (findings F11a-c). Each is a statement
+   history, then a statement that fails at its SECOND row / column; fails_early does not cover it.
+   What they show now: the statement still returns its error and the store is returned unchanged. *)
+Definition C14_former_witness (evs : list event) (st : stmt) (e : err) : Prop :=
   C14_stmts_only evs = true /\
   run_events init_sys evs = (SOk (sys_after evs), snd (run_events init_sys evs)) /\
   e_out (run_stmt (mem (sys_after evs)) st) = OErr e /\
   fails_early (mem (sys_after evs)) st = false /\
-  abs (e_store (run_stmt (mem (sys_after evs)) st)) <> abs (mem (sys_after evs)).
+  e_store (run_stmt (mem (sys_after evs)) st) = mem (sys_after evs).
 
 (* F11a: CREATE TABLE t (a INT); INSERT INTO t VALUES (1), (2147483648)
-   -> "integer value out of range", and row 1 is in the table *)
+   -> "integer value out of range"; formerly row 1 stayed in the table *)
 Definition w1_evs : list event := [EvStmt (SCreateTable "t" [mkColDef "a" STNumeric])].
 Definition w1_st : stmt := SInsert "t" [] [[VInt 1]; [VInt 2147483648]].
 
-Example C14_witness_insert_row2 : C14_witness w1_evs w1_st EIntRange.
-Proof.
-  unfold C14_witness.
-  split; [vm_compute; reflexivity|]. split; [vm_compute; reflexivity|].
-  split; [vm_compute; reflexivity|]. split; [vm_compute; reflexivity|].
-  intros H. vm_compute in H. discriminate H.
-Qed.
+Example C14_former_witness_insert_row2 : C14_former_witness w1_evs w1_st EIntRange.
+Proof. unfold C14_former_witness. vsplit. Qed.
 
-Example C14_witness_insert_row2_visible :
-  st_fetch (e_store (run_stmt (mem (sys_after w1_evs)) w1_st)) "t" = Ok ([(11%N, [VInt 1])], [mkFld "" "a"]) /\
+Example C14_former_witness_insert_row2_visible :
+  st_fetch (e_store (run_stmt (mem (sys_after w1_evs)) w1_st)) "t" = Ok ([], [mkFld "" "a"]) /\
   st_fetch (mem (sys_after w1_evs)) "t" = Ok ([], [mkFld "" "a"]).
 Proof. split; vm_compute; reflexivity. Qed.
 
 (* F11b: CREATE TABLE t (a INT, b VARCHAR(400), c VARCHAR(400));
    INSERT INTO t VALUES (1, 'x', 'y'), (2, 'x', '<300 chars>'); UPDATE t SET b = '<200 chars>'
-   -> row 1 becomes 216 bytes (fits) and is rewritten; row 2 would be 515 bytes (> 400):
-   "row too large" is returned and row 1 stays updated *)
+   -> row 1 would become 216 bytes (fits); row 2 would be 515 bytes (> 400): "row too large";
+   formerly row 1 stayed updated *)
 Definition w2_evs : list event :=
   [EvStmt (SCreateTable "t" [mkColDef "a" STNumeric; mkColDef "b" (STVarchar 400); mkColDef "c" (STVarchar 400)]);
    EvStmt (SInsert "t" [] [[VInt 1; VStr "x"; VStr "y"]; [VInt 2; VStr "x"; VStr (rep_string 300)]])].
 Definition w2_st : stmt := SUpdate "t" [("b", XLit (VStr (rep_string 200)))] None.
 
-Example C14_witness_update_row2 : C14_witness w2_evs w2_st ERowTooLarge.
-Proof.
-  unfold C14_witness.
-  split; [vm_compute; reflexivity|]. split; [vm_compute; reflexivity|].
-  split; [vm_compute; reflexivity|]. split; [vm_compute; reflexivity|].
-  intros H. vm_compute in H. discriminate H.
-Qed.
+Example C14_former_witness_update_row2 : C14_former_witness w2_evs w2_st ERowTooLarge.
+Proof. unfold C14_former_witness. vsplit. Qed.
 
-Example C14_witness_update_row2_visible :
+Example C14_former_witness_update_row2_visible :
   (match st_fetch (e_store (run_stmt (mem (sys_after w2_evs)) w2_st)) "t" with
    | Ok (rows, _) => map (fun r => (fst r, map (fun v => match v with VStr s => VInt (Z.of_nat (String.length s)) | x => x end) (snd r))) rows
    | _ => []
-   end) = [(13%N, [VInt 1; VInt 200; VInt 1]); (14%N, [VInt 2; VInt 1; VInt 300])].
+   end) = [(13%N, [VInt 1; VInt 1; VInt 1]); (14%N, [VInt 2; VInt 1; VInt 300])].
 Proof. vm_compute. reflexivity. Qed.
 
 (* F11c: CREATE TABLE t (a INT, b VARCHAR(3000000000)) on the fresh database
-   -> "integer value out of range" (field_length is an INT column of sys_schema) after the
-   sys_pages row and the sys_schema row of column a were stored: t exists with column a only *)
+   -> "integer value out of range" (field_length is an INT column of sys_schema); formerly t
+   existed afterwards with column a only *)
 Definition w3_st : stmt :=
   SCreateTable "t" [mkColDef "a" STNumeric; mkColDef "b" (STVarchar 3000000000)].
 
-Example C14_witness_create_col2 : C14_witness [] w3_st EIntRange.
-Proof.
-  unfold C14_witness.
-  split; [vm_compute; reflexivity|]. split; [vm_compute; reflexivity|].
-  split; [vm_compute; reflexivity|]. split; [vm_compute; reflexivity|].
-  intros H. vm_compute in H. discriminate H.
-Qed.
+Example C14_former_witness_create_col2 : C14_former_witness [] w3_st EIntRange.
+Proof. unfold C14_former_witness. vsplit. Qed.
 
-Example C14_witness_create_col2_visible :
-  st_fetch (e_store (run_stmt (mem (sys_after [])) w3_st)) "t" = Ok ([], [mkFld "" "a"]) /\
+Example C14_former_witness_create_col2_visible :
+  st_fetch (e_store (run_stmt (mem (sys_after [])) w3_st)) "t" = Err ETableNotExist /\
   st_fetch (mem (sys_after [])) "t" = Err ETableNotExist.
 Proof. split; vm_compute; reflexivity. Qed.
-
-Theorem C14_refuted : ~ C14_full_statement.
-Proof.
-  intros H. destruct C14_witness_insert_row2 as (Hs & Hr & Ho & _ & Hne).
-  apply Hne. exact (H _ _ _ _ _ Hs Hr Ho).
-Qed.
-Print Assumptions C14_refuted.
 
 (* ---- non-vacuity of C14_atomic_early: one failing statement of each early kind ---- *)
 Definition nv_state : store :=
@@ -173,9 +164,10 @@ Example nv_int_range : early (SInsert "t" [] [[VInt 2147483648; VStr "y"]; [VInt
 Proof. split; vm_compute; reflexivity. Qed.
 Example nv_oversized_first_row : early (SInsert "t" [] [[VInt 3; VStr (rep_string 500)]]) ERowTooLarge.
 Proof. split; vm_compute; reflexivity. Qed.
+(* the size check of CheckInsert refuses the row before BTree.insert consumes a row id / an LSN *)
 Example nv_oversized_first_row_counters :
   let s' := e_store (run_stmt nv_state (SInsert "t" [] [[VInt 3; VStr (rep_string 500)]])) in
-  lastKey s' = (lastKey nv_state + 1)%N /\ nextLSN s' = (nextLSN nv_state + 1)%N.
+  lastKey s' = lastKey nv_state /\ nextLSN s' = nextLSN nv_state.
 Proof. split; vm_compute; reflexivity. Qed.
 Example nv_set_from_column : early (SUpdate "t" [("a", XCol (mkCol "" "a"))] None) ETmpUnsupported.
 Proof. split; vm_compute; reflexivity. Qed.
@@ -194,8 +186,8 @@ Proof. split; vm_compute; reflexivity. Qed.
 Example nv_unexecuted_kind : early (SUse "db") EOther.
 Proof. split; vm_compute; reflexivity. Qed.
 
-(* the log part is not vacuous either: the F11a statement fails, leaves row 1 in the cache, and a
-   crash right after it brings back the state a crash right before it would have brought back *)
+(* the log part is not vacuous either: the F11a statement fails, and a crash right after it
+   brings back the state a crash right before it would have brought back *)
 Example nv_failed_gone :
   snd (exec (sys_after w1_evs) w1_st) = OErr EIntRange /\
   recover (fst (exec (sys_after w1_evs) w1_st)) = recover (sys_after w1_evs).
@@ -204,6 +196,7 @@ Proof. split; [vm_compute; reflexivity | eapply C14_failed_gone_after_crash; vm_
 
 
 (* ---- what a failing statement leaves behind is a row-operation prefix of it ----
+   (kept from before the repair of F11a-c; C14_atomic below says the prefix is always the empty one)
    For every state reachable by a statement history (failing statements of any kind allowed in
    the history) and every failing INSERT / UPDATE / DELETE / CREATE TABLE: the store after the
    failure represents (Proofs/RefineRep.v `Rep`: catalog invariant + every table's live cells
@@ -233,9 +226,64 @@ Proof.
 Qed.
 Print Assumptions C14_partial_prefix.
 
-(* non-vacuity: the three recorded witnesses are instances (the prefix left behind is row 1 /
-   the first updated row / the table with its first column) *)
+(* non-vacuity: the three recorded witnesses are instances *)
 Example nv_prefix_hyps :
   forallb ev_ok w1_evs = true /\ stmt_ok w1_st = true /\
   N.leb (nextFree (e_store (run_stmt (mem (sys_after w1_evs)) w1_st))) OFFMAX = true.
 Proof. split; [|split]; vm_compute; reflexivity. Qed.
+
+
+(* ---- the full statement of C14 for every reachable state: (H1) derived ----
+   For every state reachable by a statement history (failing statements of any kind allowed in
+   the history) and every statement that returns an error: the store is returned as it was given
+   (hence same_pages, hence abs unchanged). Side conditions (boolean, as in C01full): literals are
+   Go values (ev_ok on the history, stmt_ok on the statement), data file below 2^63 bytes. *)
+From Mkdb Require Import Proofs.FailsEarly.
+
+Theorem C14_atomic : forall evs y os st e,
+  C14_stmts_only evs = true -> run_events init_sys evs = (SOk y, os) ->
+  forallb ev_ok evs = true -> stmt_ok st = true ->
+  N.leb (nextFree (e_store (run_stmt (mem y) st))) OFFMAX = true ->
+  e_out (run_stmt (mem y) st) = OErr e ->
+  e_store (run_stmt (mem y) st) = mem y /\
+  same_pages (mem y) (e_store (run_stmt (mem y) st)) /\
+  abs (e_store (run_stmt (mem y) st)) = abs (mem y).
+Proof.
+  intros evs y os st e Hso Hrun Hok Hst Hmax Hout. apply N.leb_le in Hmax.
+  pose proof (reachable_stmt_atomic evs y os st e Hso Hrun Hok Hst Hmax Hout) as E.
+  rewrite E. split; [reflexivity|]. split; [apply same_pages_refl | reflexivity].
+Qed.
+Print Assumptions C14_atomic.
+
+(* one statement on any store satisfying the refinement invariant *)
+Theorem C14_atomic_rep : forall s d st e,
+  Rep s d -> stmt_ok st = true -> N.leb (nextFree (e_store (run_stmt s st))) OFFMAX = true ->
+  e_out (run_stmt s st) = OErr e -> e_store (run_stmt s st) = s.
+Proof. intros s d st e HR Hst Hmax. apply N.leb_le in Hmax. exact (stmt_err_unchanged s d st e HR Hst Hmax). Qed.
+Print Assumptions C14_atomic_rep.
+
+(* non-vacuity: the three former witnesses - a multi-row INSERT whose second row is out of INT
+   range, an UPDATE whose second matching row would exceed 400 bytes, a CREATE TABLE whose second
+   column is VARCHAR(3000000000) - are instances of C14_atomic (each fails, none fails_early) *)
+Definition atomic_hyps (evs : list event) (st : stmt) (e : err) : Prop :=
+  C14_stmts_only evs = true /\
+  run_events init_sys evs = (SOk (sys_after evs), snd (run_events init_sys evs)) /\
+  forallb ev_ok evs = true /\ stmt_ok st = true /\
+  N.leb (nextFree (e_store (run_stmt (mem (sys_after evs)) st))) OFFMAX = true /\
+  e_out (run_stmt (mem (sys_after evs)) st) = OErr e /\
+  fails_early (mem (sys_after evs)) st = false.
+
+Example nv_atomic_insert_row2 : atomic_hyps w1_evs w1_st EIntRange.
+Proof. unfold atomic_hyps. vsplit. Qed.
+Example nv_atomic_update_row2 : atomic_hyps w2_evs w2_st ERowTooLarge.
+Proof. unfold atomic_hyps. vsplit. Qed.
+Example nv_atomic_create_col2 : atomic_hyps [] w3_st EIntRange.
+Proof. unfold atomic_hyps. vsplit. Qed.
+
+(* and a history that CONTAINS the three failing statements reaches a state the theorem speaks about *)
+Definition late_evs : list event := w2_evs ++ [EvStmt w1_st; EvStmt w2_st; EvStmt w3_st].
+Example nv_atomic_history_with_late_failures :
+  atomic_hyps late_evs (SInsert "t" [] [[VInt 5; VStr "a"; VStr "b"]; [VInt 6; VStr "a"]]) EColCount /\
+  map (fun o => match o with Some (OOk _) => true | _ => false end) (snd (run_events init_sys late_evs)) =
+    [true; true; false; false; false].
+Proof. unfold atomic_hyps. vsplit. Qed.
